@@ -945,8 +945,12 @@ public:
             }
         }
 
+        // The estimate is only a pre-allocation hint: a large (maximum) width in a format
+        // spec must not make every message reserve that much memory (std::bad_alloc)
+        constexpr size_t maxReserve = 4096;
+
         QString result;
-        result.reserve(estimatedLength);
+        result.reserve(static_cast<int>(qMin(estimatedLength, maxReserve)));
 
         for (const auto &token : std::as_const(m_tokens)) {
             if (token->checkCondition(lmsg)) {
